@@ -853,7 +853,13 @@ func c09WebD(c *Ctx, gen string, p *profile.Profile, cliArgs []string, reqs []c0
 		}
 		rs = append(rs, L(S(rq.path), S(rq.rawq), L(ps...), c09PFTable(vs)))
 	}
-	in := L(S("web"), Ss(cliArgs), L(rs...), ZI(len(p.SampleType)), c09Lines(p))
+	var flagVals []string
+	for _, a := range cliArgs {
+		if k := strings.Index(a, "="); k >= 0 {
+			flagVals = append(flagVals, a[k+1:])
+		}
+	}
+	in := L(S("web"), Ss(cliArgs), L(rs...), ZI(len(p.SampleType)), c09Lines(p), c09PFTable(flagVals))
 	c09Announce(gen, in)
 	out := c09Guarded(60*time.Second, func() string { return c09ErrClass(driver.PProf(o)) })
 	c09Emit(c, gen, in, L(out, L(statuses...)), len(reqs) > 1, "op:web")
@@ -1021,7 +1027,7 @@ func c09Core(c *Ctx, stream string) {
 			c09Locate(c, "locate-odd-2", []*profile.Mapping{{BuildID: ab, File: ""}, {BuildID: "0123abcd", File: ab}})
 		}
 	}
-	for k := 0; k < c.Budget(200, 20000); k++ {
+	for k := 0; k < c.Budget(200, 8000); k++ {
 		id := c09OddString(r, 2) + c09OddString(r, 3)
 		for len(id) < 3 {
 			id += PickS(r, c09Atoms)
